@@ -36,6 +36,14 @@ func runC09(r *engine.Run) {
 	r.Rule("DOM-shortkey", "every shared-prefix node built by insert/delete gets a key provably non-empty at the site (the walk's key under len(key) == 0 false, X[:k] under k == 0 false, X[k:] under len(X) == k false, a made slice of length >= 1, a literal with elements)")
 	r.Rule("FRESH-resolved", "resolveHashNode returns exactly the node its own DeserializeNode call decoded and keeps no other reference to it: loaded nodes are mutated in place by the walks, so they are never shared through a cache")
 	r.Rule("AGREE-ref", "see C12: every reference node carries the hash and the weight of what it stands for")
+	r.Rule("ORDER-errstore", "see C12: in the weighted trie a store of the node result of a call that also returns an error into a field or slot of a live (not freshly built) node is reached only where that error tested nil: a failed storage read never erases a slot of the in-memory trie")
+	r.Rule("AGREE-slot", "in insert and delete, every recursive walk that descends from, or whose rebuilt child is stored into, a branch slot Children[i] passes the key remainder K[l:] with i == K[l-1] for the same key K (the nibble that selects the slot is exactly the one the remainder skips), and descent and link-back use the same slot of the same branch")
+	r.Rule("DOM-shortmatch", "in insert and delete, the walk continues below a shared-prefix node n (position n.value, key remainder key[len(n.key):]) only on paths where commonPrefix(n.key, key) tested equal to, or not smaller than, len(n.key)")
+	r.Rule("DOM-deletematch", "delete reports a removal (nil node, nil error) only for a value node, or for a shared-prefix node on paths where the common prefix tested equal to len(key) and covers the node's whole key; the reported weight is that node's")
+	r.Rule("AGREE-splitpair", "when insert splits a shared-prefix node, the child built for the remainder of the existing key carries the existing node's value and the child built for the remainder of the walked key carries the payload")
+	r.Rule("AGREE-mergekey", "when delete fuses shared-prefix nodes the new key is, piece by piece (symbolic evaluation of make+copy, element stores, append chains and literals, with offsets and total length), the parent's whole key followed by the absorbed node's whole key, or the slot number of the only remaining child followed by that child's whole key, or that slot number alone when the child is not a shared-prefix node; key and value of the fused node are rewritten together")
+	r.Rule("AGREE-weightop", "the weight bookkeeping of insert and delete uses the right operator on the right operands: branch weight = own weight + child's change (insert) / own weight - removed weight (delete); a split's new branch weighs Weight(existing) + Weight(payload); an update in place reports Weight(payload) - Weight(existing); a newly built subtree reports Weight(payload)")
+	r.Rule("DOM-reduce", "after a descent below a branch, delete returns the branch itself only where the rebuilt child tested non-nil or the result of the remaining-children scan was tested; the scan records slot i only where Children[i] tested non-nil and nothing had been recorded")
 	r.NotDec = append(r.NotDec, "the numeric equalities themselves (total weight = sum of live weights, block ownership, root = independent computation)")
 	exhW(r, "EXH-W", []string{"insert", "delete", "getBlockProof", "markToCollect"})
 	depWeight(r)
@@ -58,6 +66,14 @@ func runC09(r *engine.Run) {
 	freshResolved(r, "FRESH-resolved")
 	refComplete(r, "AGREE-ref")
 	domNoChange(r, "AGREE-update")
+	orderErrStore(r, "ORDER-errstore")
+	agreeSlot(r, "AGREE-slot")
+	domShortMatch(r, "DOM-shortmatch")
+	domDeleteMatch(r, "DOM-deletematch")
+	agreeSplitPair(r, "AGREE-splitpair")
+	agreeMergeKey(r, "AGREE-mergekey")
+	agreeWeightOp(r, "AGREE-weightop")
+	domReduce(r, "DOM-reduce")
 	if n := domSentinel(r, "DOM-sentinel", wf); n < 1 {
 		r.Anchor("DOM-sentinel", fmt.Errorf("unresolved anchor: no single-slot scan with sentinels found in the weighted trie (delete's reduction step is expected to be one)"))
 	}
